@@ -177,6 +177,23 @@ static int is_probe(int argc, char **argv) {
     return 0;
 }
 
+/* Like the real tools: an argument that starts with '-' is an option, never an input file.  If
+ * such an argument names an existing file, the generator passed a file name where the tool will
+ * read an option (the input is lost) - fail the step as cc / ar would. */
+static int dash_file_argument(int argc, char **argv, int first) {
+    struct stat st;
+    for (int i = first; i < argc; i++) {
+        if (i > 1 && !strcmp(argv[i - 1], "-o")) continue;      /* -o takes any next word */
+        if (i > 1 && !strcmp(argv[i - 1], "-MF")) continue;
+        if (argv[i][0] == '-' && argv[i][1] && stat(argv[i], &st) == 0 && S_ISREG(st.st_mode)) {
+            fprintf(stderr, "vstub: existing file '%s' was passed where the tool reads an option\n",
+                    argv[i]);
+            return 1;
+        }
+    }
+    return 0;
+}
+
 static int ccstub(int argc, char **argv, const char *base) {
     for (int i = 1; i < argc; i++) {
         if (!strcmp(argv[i], "--version")) {
@@ -193,6 +210,7 @@ static int ccstub(int argc, char **argv, const char *base) {
     for (int i = 1; i + 1 < argc; i++) if (!strcmp(argv[i], "-o")) has_out = 1;
     if (!has_out && is_probe(argc, argv)) return 1;
     record(argc, argv);
+    if (dash_file_argument(argc, argv, 1)) return 1;
     const char *out = NULL, *mf = NULL;
     struct buf ins = {0};
     for (int i = 1; i < argc; i++) {
@@ -228,6 +246,7 @@ static int ccstub(int argc, char **argv, const char *base) {
 static int arstub(int argc, char **argv) {
     record(argc, argv);
     /* ar <flags> <archive> members... */
+    if (argc >= 3 && dash_file_argument(argc, argv, 3)) return 1;
     if (argc >= 3) return create_file(argv[2], "ar") ? 1 : exit_status();
     return 1;
 }
